@@ -1028,7 +1028,24 @@ pub fn run_plan<T: El + PartialEq, S: SEl>(plan: &mut Plan, gen: Option<(Profile
                 }
                 env.resync_std();
             } else {
+                let crate_clones = clone_calls();
                 let sr = catch_unwind(AssertUnwindSafe(|| env.std_op(&op)));
+                // C13: where the number of `Clone::clone` calls is part of what `std` documents (`vec![x; n]` and a growing `resize`
+                // clone n - 1 times and move the original in last; `extend_from_slice` / `clone` clone once per element), a user
+                // `Clone` with side effects — or one that panics on its k-th call — sees the same calls (the std side of this
+                // harness works on plain values, so the expected count is computed)
+                let expected_clones: Option<usize> = match name {
+                    "vmacro_n" => Some(op.n.saturating_sub(1)),
+                    "resize" => Some(op.n.saturating_sub(pre_len).saturating_sub(1)),
+                    "extend_from_slice" => Some(op.xs.len()),
+                    "clone" => Some(pre_len),
+                    _ => None,
+                };
+                if let Some(exp) = expected_clones {
+                    if !panicked && sr.is_ok() && kind == 'E' && crate_tag == "ok" && crate_clones as usize != exp {
+                        fail("C13", "clone-call-count", format!("{} crate made {} Clone calls, std makes {}", op.to_text(), crate_clones, exp));
+                    }
+                }
                 let (stag, sret, sshown) = match sr {
                     Ok(s) => (s.tag, s.ret_vals, s.shown_vals),
                     Err(_) => ("panic".to_string(), vec![], vec![]),
